@@ -121,6 +121,12 @@ pub fn check_pair(rep: &mut Rep, a: Duration, b: Duration) {
 pub fn check_unit(rep: &mut Rep, a: Duration) {
     let pa = a.to_parts();
     let ca = count(pa);
+    // negative < zero < positive: the sign predicate follows the signed count
+    if let Ok(neg) = guard(|| a.is_negative()) {
+        if neg != (ca < 0) {
+            rep.fail("is_negative/value", None, || format!("{}.is_negative() = {} (count {})", fmt_parts(pa), neg, ca));
+        }
+    }
     for u in UNITS {
         if !rep.tick() {
             continue;
